@@ -8,7 +8,10 @@
    * operation ids and resource ids are integers; Python dicts are association
      lists in insertion order ([aget]/[aset]/[adel]);
    * every OperationContext ever created lives in the store [ctxs] under its
-     operation id (ids are fresh per operation, so id <-> context object);
+     operation id.  start_operation through the step API takes a fresh id; an
+     execute_operation may RE-USE the id of an operation that has ended (a
+     retry): the new context replaces the old one in the store, which nothing
+     refers to any more.  While an id is live, id <-> context object;
      [active] is the key list of controller.active_operations.  A context that
      was removed from [active] is still reachable through the store, exactly as
      the local variable [ctx] of execute_operation keeps the Python object alive;
@@ -268,6 +271,25 @@ Definition advance (s : st) (o : Z) (out : cpo) : st * bool :=
       else (s, false)
   end.
 
+(* advance(ctx) when the checkpoint condition is a callback that may itself call
+   the controller: `current_phase = ctx.phase` is read BEFORE the condition runs
+   ([ph]); the condition's verdict is computed on the context as the callback
+   left it; the phase entered is the successor of [ph] even if the callback
+   aborted the operation (which resets ctx.phase to G0). *)
+Definition cond_at (ph : phase) (c : ctx) : bool :=
+  match ph with
+  | G0 => true | G1 => c_racq c | PS => c_exec c | G2 => c_valid c | PM => true
+  end.
+
+Definition advance_at (ph : phase) (s : st) (o : Z) (out : cpo) : st * bool :=
+  match get_ctx s o with
+  | None => (s, false)
+  | Some c =>
+      let ok := match out with CpDefault => cond_at ph c | _ => false end in
+      if ok then (put_ctx s o (c_set_phase c (next_phase ph) (now s)), true)
+      else (s, false)
+  end.
+
 (* pre-repair behaviours, for documentation/refutation only *)
 Record flags := mkF {
   f_reentrant : bool;   (* before 8bfbd27: release_all releases each id once *)
@@ -436,7 +458,7 @@ Definition shutdown (fl : flags) (s : st) : st :=
 (* the step API used by histories, and by scripted work functions       *)
 
 Inductive fop :=
-| FStart (o p : Z) (exempt : bool)   (* controller.start_operation with a fresh id *)
+| FStart (o p : Z) (exempt : bool)   (* controller.start_operation with a fresh id (never used before) *)
 | FAcquire (o r : Z)                 (* ctx = active_operations.get(o); acquire_resource(ctx, r) *)
 | FRelease (o r : Z)
 | FComplete (o : Z)
@@ -486,8 +508,22 @@ Definition fstep (fl : flags) (w : wcfg) (s : st) (a : fop) : st * list Z :=
 Inductive vfn := VNone | VTrue | VFalse | VRaise.
 Inductive wact := WProbe | WDo (a : fop).
 
+(* what a CHECKPOINT callback may do besides returning its verdict: the ways an
+   operation is ended from outside (manual kill of any operation, a watchdog
+   pass, shutdown), time passing, and looking at the locks *)
+Inductive cact := CProbe | CKill (o : Z) | CWatchdog | CShutdown | CTick (d : Z).
+Definition cact_wact (a : cact) : wact :=
+  match a with
+  | CProbe => WProbe
+  | CKill o => WDo (FKill o)
+  | CWatchdog => WDo FWatchdog
+  | CShutdown => WDo FShutdown
+  | CTick d => WDo (FTick d)
+  end.
+
 Record script := mkScript {
-  sc_cp : list cpo;          (* behaviour of the k-th checkpoint evaluation (default beyond the list) *)
+  sc_cp : list cpo;          (* verdict of the k-th checkpoint evaluation (default beyond the list) *)
+  sc_cpw : list (list cact); (* what the k-th checkpoint evaluation does first (nothing beyond the list) *)
   sc_work : list wact;       (* what work_fn does before it returns / raises *)
   sc_work_raises : bool;
   sc_validate : vfn }.
@@ -540,51 +576,66 @@ Definition failed (fl : flags) (s : st) (o : Z) (log : list ev) : st * result :=
   let s' := finish fl s o in (s', mkResult false (phase_of s' o) log).
 
 Definition cp_of (sc : script) (k : nat) : cpo := nth k (sc_cp sc) CpDefault.
+Definition cb_of (sc : script) (k : nat) : list wact := map cact_wact (nth k (sc_cpw sc) []).
 
-(* the stages of execute_operation, last first *)
-Definition exec_validate (fl : flags) (s7 : st) (o : Z) (sc : script) (log3 : list ev) : st * result :=
+(* the stages of execute_operation, last first.  Each controller.advance(ctx) is:
+   read ctx.phase, run the callback of the checkpoint ([cb_of sc k]), then
+   [advance_at] with the k-th verdict.
+   [chk] = the liveness test before work_fn (fix 531c938); [exec_op] has it. *)
+Definition exec_validate (fl : flags) (w : wcfg) (s7 : st) (o : Z) (sc : script) (log3 : list ev) : st * result :=
   match sc_validate sc with
   | VFalse => failed fl s7 o (log3 ++ [EvValidate false])
   | VRaise => failed fl s7 o (log3 ++ [EvValidateRaise])
   | v =>
       let log4 := log3 ++ match v with VTrue => [EvValidate true] | _ => [] end in
       let s8 := upd_ctx s7 o c_set_valid in
-      let '(s9, b3) := advance s8 o (cp_of sc 3) in
-      let log5 := log4 ++ [EvCp 3 b3] in
+      let '(s8', l3) := run_work fl w s8 (cb_of sc 3) in
+      let '(s9, b3) := advance_at (phase_of s8 o) s8' o (cp_of sc 3) in
+      let log5 := log4 ++ l3 ++ [EvCp 3 b3] in
       if negb b3 then failed fl s9 o log5
       else (finish fl s9 o, mkResult true PM log5)          (* complete_operation *)
   end.
 
-Definition exec_after_work (fl : flags) (s5 : st) (o : Z) (sc : script) (log2 : list ev) : st * result :=
+Definition exec_after_work (fl : flags) (w : wcfg) (s5 : st) (o : Z) (sc : script) (log2 : list ev) : st * result :=
   let s6 := upd_ctx s5 o c_set_exec in
-  let '(s7, b2) := advance s6 o (cp_of sc 2) in
-  let log3 := log2 ++ [EvWorkRet; EvCp 2 b2] in
-  if negb b2 then failed fl s7 o log3 else exec_validate fl s7 o sc log3.
+  let '(s6', l2) := run_work fl w s6 (cb_of sc 2) in
+  let '(s7, b2) := advance_at (phase_of s6 o) s6' o (cp_of sc 2) in
+  let log3 := log2 ++ [EvWorkRet] ++ l2 ++ [EvCp 2 b2] in
+  if negb b2 then failed fl s7 o log3 else exec_validate fl w s7 o sc log3.
 
 Definition exec_work (fl : flags) (w : wcfg) (s4 : st) (o : Z) (sc : script) (log1 : list ev) : st * result :=
   let '(s5, wl) := run_work fl w s4 (sc_work sc) in
   let log2 := log1 ++ EvWork s4 :: wl in
   if sc_work_raises sc then failed fl s5 o (log2 ++ [EvWorkRaise])
-  else exec_after_work fl s5 o sc log2.
+  else exec_after_work fl w s5 o sc log2.
 
-Definition exec_acquired (fl : flags) (w : wcfg) (s2 : st) (o : Z) (sc : script) (log0 : list ev) : st * result :=
+Definition exec_acquired (chk : bool) (fl : flags) (w : wcfg) (s2 : st) (o : Z) (sc : script) (log0 : list ev) : st * result :=
   let s3 := upd_ctx s2 o c_set_racq in
-  let '(s4, b1) := advance s3 o (cp_of sc 1) in
-  let log1 := log0 ++ [EvCp 1 b1] in
-  if negb b1 then failed fl s4 o log1 else exec_work fl w s4 o sc log1.
+  let '(s3', l1) := run_work fl w s3 (cb_of sc 1) in
+  let '(s4, b1) := advance_at (phase_of s3 o) s3' o (cp_of sc 1) in
+  let log1 := log0 ++ l1 ++ [EvCp 1 b1] in
+  if negb b1 then failed fl s4 o log1
+  else if chk && negb (is_active s4 o) then failed fl s4 o log1   (* "Operation terminated before work" *)
+  else exec_work fl w s4 o sc log1.
 
-(* the state in which the acquisition loop starts *)
-Definition exec_begin (s : st) (o p : Z) (sc : script) : st * bool :=
-  advance (start_op s o p false) o (cp_of sc 0).          (* result ignored by the code *)
+(* start_operation and the G0 advance (its result is ignored by the code):
+   the state in which the acquisition loop starts, the verdict, the callback's log *)
+Definition exec_begin (fl : flags) (w : wcfg) (s : st) (o p : Z) (sc : script) : st * bool * list ev :=
+  let s0 := start_op s o p false in
+  let '(s0', l0) := run_work fl w s0 (cb_of sc 0) in
+  let '(s1, b0) := advance_at G0 s0' o (cp_of sc 0) in
+  (s1, b0, l0).
 
-Definition exec_op (fl : flags) (w : wcfg) (s : st) (o p : Z) (reqs : list Z) (sc : script)
+Definition exec_op_gen (chk : bool) (fl : flags) (w : wcfg) (s : st) (o p : Z) (reqs : list Z) (sc : script)
   : st * result :=
-  let '(s1, b0) := exec_begin s o p sc in
-  let log0 := [EvCp 0 b0] in
+  let '(s1, b0, l0) := exec_begin fl w s o p sc in
+  let log0 := l0 ++ [EvCp 0 b0] in
   match acquire_all fl s1 o 0 reqs with
-  | (s2, AllAcquired) => exec_acquired fl w s2 o sc log0
+  | (s2, AllAcquired) => exec_acquired chk fl w s2 o sc log0
   | (s2, _) => failed fl s2 o log0                         (* ResourceError / ValueError *)
   end.
+
+Definition exec_op := exec_op_gen true.
 
 Inductive op :=
 | OFlat (a : fop)
@@ -626,7 +677,7 @@ Definition step (fl : flags) (w : wcfg) (s : st) (a : op) : st * list (list Z) :
   match a with
   | OFlat f => let '(s', ret) := fstep fl w s f in (s', [100 :: ret])
   | OExec o p reqs sc =>
-      if has_ctx s o then (s, [[100; -1]])
+      if is_active s o then (s, [[100; -1]])      (* the driver re-uses an id only after its operation ended *)
       else let '(s', r) := exec_op fl w s o p reqs sc in
            (s', [100; b2z (r_success r); phase_code (r_phase r)] :: map (fun e => 105 :: obs_ev e) (r_log r))
   end.
